@@ -4,3 +4,6 @@ package reader
 
 // verifYield is a no-op unless built with the verif tag (see verif_on.go).
 func verifYield(point string, channel string, collectionID int64) {}
+
+// verifNote is a no-op unless built with the verif tag; it never blocks.
+func verifNote(point string, channel string, a uint64, b int64) {}
